@@ -78,6 +78,7 @@ package recordio
 
 //@ func (*FileWriter).Seek
 //@   props C04 C15 C20
+//@   bounded file_writer_programs writer programs: <= 3 writes over 5 record kinds, Seek to any earlier boundary, <= 2 more writes, Close; sequential, mmap and skipping readers; 2 (quick) or 4 (thorough) compression types
 //@   replay file_writer_programs
 //@   requires w.bufWriter != nil && offset < 4611686018427387904
 //@   ensures [rejects-header-range] offset < old(w.headerOffset) ==> r0 != nil
